@@ -81,6 +81,8 @@ type c04Gen struct {
 	reuseFirst bool                                     // the second transaction of the history is a re-use life cycle (belief still exact)
 	nReuse     int                                      // transactions produced by reuseTxs
 	childFk    bool                                     // some fk edge starts or ends at a child store: the belief tracks the store an entity lives in (store_c04_child.go)
+	diamond    bool                                     // the history holds DAGs with shared descendants built on purpose (store_c04_diamond.go)
+	nDiamond   int                                      // transactions produced by diamondTxs
 }
 
 func newC04Gen(r *rng, w *wiring, ids []string) *c04Gen {
@@ -180,6 +182,9 @@ func (g *c04Gen) believeDelete(root, id string, depth int) bool {
 	for _, c := range cascade {
 		if c[0] == root && c[1] == id {
 			return false // self reference under cascade: never terminates / is refused
+		}
+		if _, ok := g.ents[c[0]][c[1]]; !ok {
+			continue // reached over a second cascade path: a nested cascade removed it already
 		}
 		if !g.believeDelete(c[0], c[1], depth+1) {
 			return false
@@ -445,6 +450,14 @@ func (g *c04Gen) genHistory() []hTx {
 	g.shared = g.r.chance(25)
 	g.graves = map[string][]string{}
 	for i := 0; i < n; i++ {
+		if g.diamond && (i == 0 || g.r.chance(22)) {
+			// an entity reachable over two cascade paths, then the delete of the apex (store_c04_diamond.go)
+			if r := g.diamondTxs(); len(r) > 0 {
+				txs = append(txs, r...)
+				g.nDiamond += len(r)
+				continue
+			}
+		}
 		if g.r.chance(14) || (i == 1 && g.reuseFirst) {
 			// the life cycle of one fk target inside one context (store_c04_reuse.go)
 			if r := g.reuseTxs(); len(r) > 0 {
@@ -720,6 +733,15 @@ func runStoreIso(o *opts) error {
 			}
 		}
 		lines = append(lines, genC04W(o.seed+104729, n*2/5, c04ChildWirings, stats)...)
+		// referrers reachable over two cascade paths (store_c04_diamond.go)
+		if o.get("sweep", "1") == "1" {
+			if o.thorough() {
+				lines = append(lines, c04ExhaustScenarios(c04DiamondScenarios(), 3, "exhaustive_diamond", stats)...)
+			} else {
+				lines = append(lines, c04ExhaustScenarios(c04DiamondScenarios(), 2, "exhaustive_diamond", stats)...)
+			}
+		}
+		lines = append(lines, genC04Diamond(o.seed+15485863, n*2/5, stats)...)
 	}
 	cases := newLineWriter(o.out, "cases.txt")
 	for _, l := range lines {
